@@ -1152,7 +1152,7 @@ def run(ctx):
         "truncation/corruption of a valid one, any of %d value shapes in place of the whole triple / magic / command / args, wrong argument counts); "
         "plus a systematic sweep of every shape in every position of every command against a populated table; registrations whose port is nested "
         "up to the deepest value the decoder still accepts from inside _work (found by bisection on every run) followed by queries, and deep values "
-        "in the other positions; real UDP/TCP loopback runs (numeric command, silent and partial TCP clients; a TCP server process with a lowered "
+        "in the other positions; real UDP/TCP loopback runs (numeric command, silent, partial and trickling TCP clients - one byte at a time, faster than the read timeout; a TCP server process with a lowered "
         "descriptor limit receiving more unanswered requests than it has descriptors; stock server and client constants with one silent client; a client that resets its connection after a well-formed request, the reply being held until the reset happened; "
         "60 / 90 registrants of one name and 48 bulky ports against the stock UDP client); answers beyond MAX_DGRAM_SIZE and NaN ports (plain and nested) "
         "also without sockets. non-trivial = at least 3 datagrams of which at least 2 are well-formed commands; "
